@@ -216,6 +216,122 @@ theorem FInv.setLb {st : St α D} (h : FInv asn C cvrs winner st) (lb : LB D) (h
 
 variable (asn C cvrs winner)
 
+/-! ### termination measure
+
+Every iteration of the main loop strictly decreases `Phi`, the sum over the frontier of the weights of the
+expandable nodes: a node that will never be expanded (`estimate <= lowerbound`) weighs its tail length, any
+other expandable node weighs `W (N - length)`, more than everything its processing can add to the frontier. -/
+
+/-- weight of an expandable node that may still be expanded, `d` = number of candidates not in its tail -/
+def W (N : Nat) : Nat → Nat
+  | 0 => N + 1
+  | d + 1 => (2 * N + 1) * W N d
+
+theorem W_pos (N d : Nat) : N + 1 ≤ W N d := by
+  induction d with
+  | zero => exact Nat.le_refl _
+  | succ d ih =>
+    show N + 1 ≤ (2 * N + 1) * W N d
+    calc N + 1 ≤ W N d := ih
+      _ = 1 * W N d := (Nat.one_mul _).symm
+      _ ≤ (2 * N + 1) * W N d := Nat.mul_le_mul_right _ (by omega)
+
+theorem W_mono (N : Nat) {d d' : Nat} (h : d ≤ d') : W N d ≤ W N d' := by
+  induction h with
+  | refl => exact Nat.le_refl _
+  | step _ ih =>
+    refine Nat.le_trans ih ?_
+    show W N _ ≤ (2 * N + 1) * W N _
+    calc W N _ = 1 * W N _ := (Nat.one_mul _).symm
+      _ ≤ (2 * N + 1) * W N _ := Nat.mul_le_mul_right _ (by omega)
+
+def wt (N : Nat) (n : Node α D) (lb : LB D) : Nat :=
+  if n.expandable then (if leLB n.estimate lb then n.tail.length else W N (N - n.tail.length)) else 0
+
+def Phi (st : St α D) : Nat :=
+  (st.fr.map fun id => wt C.candidates.length (st.store.get id) st.lb).sum
+
+theorem wt_le_W (N : Nat) (n : Node α D) (lb : LB D) (hlen : n.tail.length ≤ N) :
+    wt N n lb ≤ W N (N - n.tail.length) := by
+  have := W_pos N (N - n.tail.length)
+  unfold wt
+  split
+  · split
+    · omega
+    · exact Nat.le_refl _
+  · omega
+
+theorem wt_final_le (N : Nat) (n : Node α D) (lb : LB D) (h : leLB n.estimate lb = true) :
+    wt N n lb ≤ n.tail.length := by
+  unfold wt
+  rw [if_pos h]
+  split
+  · exact Nat.le_refl _
+  · omega
+
+theorem le_wt_of_exp (N : Nat) (n : Node α D) (lb : LB D) (h : n.expandable = true)
+    (hlen : n.tail.length ≤ N) : n.tail.length ≤ wt N n lb := by
+  have := W_pos N (N - n.tail.length)
+  unfold wt
+  rw [if_pos h]
+  split
+  · exact Nat.le_refl _
+  · omega
+
+theorem wt_mono_lb (N : Nat) (n : Node α D) {lb lb' : LB D} (hle : LB.le lb lb')
+    (hlen : n.tail.length ≤ N) : wt N n lb' ≤ wt N n lb := by
+  have hW := W_pos N (N - n.tail.length)
+  unfold wt
+  split
+  · by_cases h : leLB n.estimate lb = true
+    · rw [if_pos h, if_pos (leLB_mono hle h)]; exact Nat.le_refl _
+    · rw [if_neg h]
+      split
+      · omega
+      · exact Nat.le_refl _
+  · exact Nat.le_refl _
+
+theorem Phi_le_of {st st' : St α D} (hfr : st'.fr = st.fr)
+    (h : ∀ id ∈ st.fr, wt C.candidates.length (st'.store.get id) st'.lb ≤
+      wt C.candidates.length (st.store.get id) st.lb) : Phi C st' ≤ Phi C st := by
+  unfold Phi
+  rw [hfr]
+  exact sum_map_le _ _ _ h
+
+theorem Phi_insert (st : St α D) (id : Nat) :
+    Phi C ({ st with fr := Raire.insertNode st.store st.fr id } : St α D) =
+      Phi C st + wt C.candidates.length (st.store.get id) st.lb := by
+  obtain ⟨pre, post, h1, h2, _⟩ := insertNode_split st.store st.fr id
+  unfold Phi
+  show ((Raire.insertNode st.store st.fr id).map _).sum = (st.fr.map _).sum + _
+  rw [h2, h1]
+  simp only [List.map_append, List.map_cons, List.sum_append, List.sum_cons]
+  omega
+
+theorem sum_map_filter_le {β : Type} (l : List β) (p : β → Bool) (f : β → Nat) :
+    ((l.filter p).map f).sum ≤ (l.map f).sum := by
+  induction l with
+  | nil => simp
+  | cons a l ih =>
+    simp only [List.filter_cons]
+    split
+    · simp only [List.map_cons, List.sum_cons]; omega
+    · simp only [List.map_cons, List.sum_cons]; omega
+
+theorem Phi_filter (st : St α D) (p : Nat → Bool) :
+    Phi C ({ st with fr := st.fr.filter p } : St α D) ≤ Phi C st :=
+  sum_map_filter_le _ _ _
+
+/-- expandable frontier nodes have incomplete tails (from the node invariant) -/
+theorem len_le_of_ok {s : Store α D} {id : Nat} (h : NodeOK asn C cvrs winner s id) (hC : C.candidates.Nodup) :
+    (s.get id).tail.length ≤ C.candidates.length :=
+  (List.subperm_of_subset h.nodup h.sub).length_le
+
+theorem Phi_setLb (hC : C.candidates.Nodup) (st : St α D) (lb' : LB D) (hle : LB.le st.lb lb')
+    (hok : StoreOK asn C cvrs winner st.store) (hin : ∀ id ∈ st.fr, id < st.store.size) :
+    Phi C ({ st with lb := lb' } : St α D) ≤ Phi C st :=
+  Phi_le_of C rfl (fun id hid => wt_mono_lb _ _ hle (len_le_of_ok asn C cvrs winner (hok id (hin id hid)) hC))
+
 /-! ### manage_node -/
 
 theorem manageNode_expandable (st : St α D) (id : Nat) (h : (st.store.get id).expandable = true) :
@@ -280,11 +396,17 @@ theorem manageNode_spec (hC : C.candidates.Nodup) (st : St α D) (id : Nat) (hid
     LB.le st.lb (manageNode st id).2.2.lb ∧
     (∀ π, SC st π → SC (manageNode st id).2.2 π) ∧
     (∀ π, (st.store.get id).tail <:+ π → SC (manageNode st id).2.2 π) ∧
-    (manageNode st id).2.1 = !(st.store.get id).expandable := by
+    (manageNode st id).2.1 = !(st.store.get id).expandable ∧
+    Phi C (manageNode st id).2.2 ≤
+      Phi C st + W C.candidates.length (C.candidates.length - (st.store.get id).tail.length) := by
+  have hlenid := len_le_of_ok asn C cvrs winner (hok id hid) hC
   cases he : (st.store.get id).expandable with
   | true =>
     rw [manageNode_expandable st id he]
-    refine ⟨rfl, hF.insertNode id hid (by simp [he]), LB.le_refl _, ?_, ?_, rfl⟩
+    refine ⟨rfl, hF.insertNode id hid (by simp [he]), LB.le_refl _, ?_, ?_, rfl, ?_⟩
+    rotate_left 2
+    · rw [Phi_insert]
+      exact Nat.add_le_add_left (wt_le_W _ _ _ hlenid) _
     · intro π hsc
       exact hsc.mono (fun x hx => ⟨(mem_insertNode _ _ _ _).2 (Or.inr hx), rfl, rfl, rfl⟩) (LB.le_refl _)
     · intro π hπ
@@ -308,7 +430,24 @@ theorem manageNode_spec (hC : C.candidates.Nodup) (st : St α D) (id : Nat) (hid
           exact c1 rfl
         have hle := le_maxLB_left st.lb (st.store.get anc).estimate
         have hsuf : (st.store.get anc).tail <:+ (st.store.get id).tail := ⟨pre, htail.symm⟩
-        refine ⟨rfl, ?_, hle, ?_, ?_, by simp⟩
+        refine ⟨rfl, ?_, hle, ?_, ?_, by simp, ?_⟩
+        rotate_left 3
+        · have h1 := Phi_setLb asn C cvrs winner hC st (maxLB st.lb (st.store.get anc).estimate) hle hok hF.inRange
+          have h2 := Phi_filter C (St.mk st.store st.fr (maxLB st.lb (st.store.get anc).estimate))
+            (fun j => !isDescendentOf (st.store.get j).tail (st.store.get anc).tail)
+          have h3 := Phi_insert C (St.mk st.store
+            (st.fr.filter (fun j => !isDescendentOf (st.store.get j).tail (st.store.get anc).tail))
+            (maxLB st.lb (st.store.get anc).estimate)) anc
+          have h4 := wt_final_le C.candidates.length (st.store.get anc) (maxLB st.lb (st.store.get anc).estimate)
+            (le_maxLB_right _ _)
+          have h5 := len_le_of_ok asn C cvrs winner (hok anc hancsz) hC
+          have h6 := W_pos C.candidates.length (C.candidates.length - (st.store.get id).tail.length)
+          show Phi C (St.mk st.store (Raire.insertNode st.store
+              (st.fr.filter (fun j => !isDescendentOf (st.store.get j).tail (st.store.get anc).tail)) anc)
+              (maxLB st.lb (st.store.get anc).estimate)) ≤ _
+          simp only at h1 h2 h3 h4 ⊢
+          rw [h3]
+          omega
         · exact (hF.replaceDescendents anc hancsz hafin hopt).setLb _ hle (LBfin_maxLB hF.lbFin hafin)
             (LBopt_maxLB asn C cvrs winner hF.lbOpt hopt)
         · intro π ⟨w, hw, hw1, hw2⟩
@@ -325,7 +464,17 @@ theorem manageNode_spec (hC : C.candidates.Nodup) (st : St α D) (id : Nat) (hid
         have hnfin : (st.store.get id).estimate ≠ Diff.inf := by
           intro hi; rw [hi, Diff.le_inf] at c2; exact c2 rfl
         have hle := le_maxLB_left st.lb (st.store.get id).estimate
-        refine ⟨rfl, ?_, hle, ?_, ?_, by simp⟩
+        refine ⟨rfl, ?_, hle, ?_, ?_, by simp, ?_⟩
+        rotate_left 3
+        · have h1 := Phi_setLb asn C cvrs winner hC st (maxLB st.lb (st.store.get id).estimate) hle hok hF.inRange
+          have h3 := Phi_insert C (St.mk st.store st.fr (maxLB st.lb (st.store.get id).estimate)) id
+          have h4 : wt C.candidates.length (st.store.get id) (maxLB st.lb (st.store.get id).estimate) = 0 := by
+            unfold wt; rw [he]; rfl
+          show Phi C (St.mk st.store (Raire.insertNode st.store st.fr id)
+            (maxLB st.lb (st.store.get id).estimate)) ≤ _
+          simp only at h1 h3 h4 ⊢
+          rw [h3]
+          omega
         · exact (hF.insertNode id hid (fun _ => ⟨hnfin, hopt⟩)).setLb _ hle (LBfin_maxLB hF.lbFin hnfin)
             (LBopt_maxLB asn C cvrs winner hF.lbOpt hopt)
         · intro π hsc
@@ -470,15 +619,30 @@ theorem pruneChecks_cases {st st' : St α D} {te : Nat} (h : pruneChecks st te =
       exact ⟨hl, by cases h; rfl⟩
     · cases h
 
-theorem pruneChecks_spec (st st' : St α D) (te : Nat) (hte : te < st.store.size)
+theorem pruneChecks_spec (hC : C.candidates.Nodup) (st st' : St α D) (te : Nat) (hte : te < st.store.size)
     (hok : StoreOK asn C cvrs winner st.store) (hF : FInv asn C cvrs winner st) (h : pruneChecks st te = some st') :
     StoreOK asn C cvrs winner st'.store ∧ FInv asn C cvrs winner st' ∧ st'.lb = st.lb ∧
-    (∀ π, SC st π → SC st' π) ∧ (∀ π, (st.store.get te).tail <:+ π → SC st' π) := by
+    (∀ π, SC st π → SC st' π) ∧ (∀ π, (st.store.get te).tail <:+ π → SC st' π) ∧
+    Phi C st' ≤ Phi C st + ((st.store.get te).tail.length - 1) := by
   rcases pruneChecks_cases h with ⟨a, ha, hl, rfl⟩ | ⟨hl, rfl⟩
   · obtain ⟨hlt, pre, hpre, htail⟩ := (hok te hte).anc a ha
     have hasz : a < st.store.size := Nat.lt_trans hlt hte
     have hafin := leLB_fin hF.lbFin hl
-    refine ⟨hok, hF.replaceDescendents a hasz hafin (hF.leOPT_of_leLB hl), rfl, ?_, ?_⟩
+    refine ⟨hok, hF.replaceDescendents a hasz hafin (hF.leOPT_of_leLB hl), rfl, ?_, ?_, ?_⟩
+    rotate_left 2
+    · have h2 := Phi_filter C st (fun j => !isDescendentOf (st.store.get j).tail (st.store.get a).tail)
+      have h3 := Phi_insert C (St.mk st.store
+        (st.fr.filter (fun j => !isDescendentOf (st.store.get j).tail (st.store.get a).tail)) st.lb) a
+      have h4 := wt_final_le C.candidates.length (st.store.get a) st.lb hl
+      have h5 : (st.store.get a).tail.length + 1 ≤ (st.store.get te).tail.length := by
+        rw [htail, List.length_append]
+        have : pre.length ≠ 0 := fun h0 => hpre (List.length_eq_zero_iff.1 h0)
+        omega
+      show Phi C (St.mk st.store (Raire.insertNode st.store
+        (st.fr.filter (fun j => !isDescendentOf (st.store.get j).tail (st.store.get a).tail)) a) st.lb) ≤ _
+      simp only at h2 h3 h4 ⊢
+      rw [h3]
+      omega
     · intro π ⟨w, hw, hw1, hw2⟩
       by_cases hd : isDescendentOf (st.store.get w).tail (st.store.get a).tail = true
       · obtain ⟨q, _, hq⟩ := (isDescendentOf_iff _ _).1 hd
@@ -530,7 +694,28 @@ theorem pruneChecks_spec (st st' : St α D) (te : Nat) (hte : te < st.store.size
         · rw [Store.get_set_ne _ _ hk] at hexp
           exact hexp
     have hte' : (Store.get (st.store.setIfInBounds te n') te) = n' := Store.get_set_eq _ _ hte
-    refine ⟨?_, ?_, rfl, ?_, ?_⟩
+    refine ⟨?_, ?_, rfl, ?_, ?_, ?_⟩
+    rotate_left 4
+    · have h1 : Phi C (St.mk (st.store.setIfInBounds te n') st.fr st.lb) ≤ Phi C st := by
+        refine Phi_le_of C (st := st) (st' := St.mk (st.store.setIfInBounds te n') st.fr st.lb) rfl ?_
+        intro k hk
+        by_cases hkt : te = k
+        · subst hkt
+          show wt _ (Store.get (st.store.setIfInBounds te n') te) st.lb ≤ _
+          rw [hte']
+          unfold wt
+          simp [n']
+        · show wt _ (Store.get (st.store.setIfInBounds te n') k) st.lb ≤ _
+          rw [Store.get_set_ne _ _ hkt]
+          exact Nat.le_refl _
+      have h3 := Phi_insert C (St.mk (st.store.setIfInBounds te n') st.fr st.lb) te
+      have h4 : wt C.candidates.length (Store.get (st.store.setIfInBounds te n') te) st.lb = 0 := by
+        rw [hte']; unfold wt; simp [n']
+      show Phi C (St.mk (st.store.setIfInBounds te n')
+        (Raire.insertNode (st.store.setIfInBounds te n') st.fr te) st.lb) ≤ _
+      simp only at h1 h3 h4 ⊢
+      rw [h3]
+      omega
     · intro id hid
       rw [hsz] at hid
       exact hok.ext asn C cvrs winner hE id hid
@@ -572,7 +757,9 @@ def DiveOut (st : St α D) (nid : Nat) (sd : St α D) : Prop :=
     (∀ π, SC st π → SC sd π) ∧ (∀ π, (next :: (st.store.get nid).tail) <:+ π → SC sd π) ∧
     st.store.size ≤ sd.store.size ∧
     (∀ k, k < st.store.size → k ≠ nid → sd.store.get k = st.store.get k) ∧
-    sd.store.get nid = { st.store.get nid with explored := (st.store.get nid).explored ++ [next] }
+    sd.store.get nid = { st.store.get nid with explored := (st.store.get nid).explored ++ [next] } ∧
+    Phi C sd ≤ Phi C st + (C.candidates.length - (st.store.get nid).tail.length) *
+      W C.candidates.length (C.candidates.length - (st.store.get nid).tail.length - 1)
 
 theorem LB.isInf_false_of_fin {lb : LB D} (h : LBfin lb) : LB.isInf lb = false := by
   cases lb with
@@ -594,12 +781,19 @@ def DiveRes (st : St α D) (nid : Nat) (res : Res (St α D)) : Prop :=
 theorem performDive_spec (hC : C.candidates.Nodup) : ∀ (fuel nid : Nat) (st : St α D) (res : Res (St α D)),
     performDive asn C (cvrs.filterMap id) (nebTable asn C cvrs) fuel nid st = res →
     nid < st.store.size → StoreOK asn C cvrs winner st.store → FInv asn C cvrs winner st →
-    (st.store.get nid).expandable = true → DiveRes asn C cvrs winner st nid res := by
+    (st.store.get nid).expandable = true →
+    DiveRes asn C cvrs winner st nid res ∧
+    (res = Res.fuel → fuel + (st.store.get nid).tail.length ≤ C.candidates.length) := by
   intro fuel
   induction fuel with
-  | zero => intro nid st res h _ _ _ _; simp only [performDive] at h; subst h; trivial
+  | zero =>
+    intro nid st res h hnid hok _ _; simp only [performDive] at h; subst h
+    exact ⟨trivial, fun _ => by
+      have := len_le_of_ok asn C cvrs winner (hok nid hnid) hC
+      omega⟩
   | succ fuel ih =>
     intro nid st res h hnid hok hF hexp
+    have hklt := (hok nid hnid).expLen hexp
     rw [performDive] at h
     simp only at h
     split at h
@@ -703,11 +897,30 @@ theorem performDive_spec (hC : C.candidates.Nodup) : ∀ (fuel nid : Nat) (st : 
           | true =>
             simp only [if_true] at h
             subst h
-            exact ⟨fun _ => hbad rfl, fun hinf => by simp [LB.isInf, Diff.isInf] at hinf⟩
+            exact ⟨⟨fun _ => hbad rfl, fun hinf => by simp [LB.isInf, Diff.isInf] at hinf⟩, fun h => nomatch h⟩
           | false =>
             simp only [Bool.false_eq_true, if_false] at h
-            obtain ⟨m1, m2, m3, m4, m5, m6⟩ := hm rfl
+            obtain ⟨m1, m2, m3, m4, m5, m6, m7⟩ := hm rfl
             have m1' : st2.store = s1 := m1
+            have hPhi1 : Phi C ({ st with store := s1 } : St α D) ≤ Phi C st := by
+              refine Phi_le_of C (st := st) (st' := St.mk s1 st.fr st.lb) rfl ?_
+              intro k hk
+              obtain ⟨q1, q2, q3⟩ := hsame k (hF.inRange k hk)
+              show wt _ (Store.get s1 k) st.lb ≤ _
+              unfold wt
+              rw [q1, q2, q3]
+              exact Nat.le_refl _
+            have hPhi2 : Phi C st2 ≤ Phi C st +
+                W C.candidates.length (C.candidates.length - (st.store.get nid).tail.length - 1) := by
+              have : (Store.get s1 st.store.size).tail.length = (st.store.get nid).tail.length + 1 := by
+                rw [hget_new, f1]; rfl
+              have m7' : Phi C st2 ≤ Phi C (St.mk s1 st.fr st.lb) +
+                  W C.candidates.length (C.candidates.length - (Store.get s1 st.store.size).tail.length) := m7
+              rw [this] at m7'
+              have e : C.candidates.length - ((st.store.get nid).tail.length + 1) =
+                  C.candidates.length - (st.store.get nid).tail.length - 1 := by omega
+              rw [e] at m7'
+              omega
             have hsc_all : ∀ π, SC st π → SC st2 π := by
               intro π hsc
               by_cases hthru : (next :: (st.store.get nid).tail) <:+ π
@@ -724,12 +937,17 @@ theorem performDive_spec (hC : C.candidates.Nodup) : ∀ (fuel nid : Nat) (st : 
             | true =>
               simp only [if_true] at h
               subst h
-              refine ⟨fun hinf => ?_, fun _ => ?_⟩
+              refine ⟨⟨fun hinf => ?_, fun _ => ?_⟩, fun h => nomatch h⟩
               · rw [LB.isInf_false_of_fin m2.lbFin] at hinf; cases hinf
               refine ⟨next, hnc, hnt, by rw [m1']; exact hok1, m2, m3, hsc_all, hsc_thru,
-                by rw [m1']; omega, ?_, ?_⟩
+                by rw [m1']; omega, ?_, ?_, ?_⟩
               · intro k hk hne; rw [m1']; exact hget_old k hk hne
               · rw [m1', hget_nid, hnode']
+              · have : W C.candidates.length (C.candidates.length - (st.store.get nid).tail.length - 1) ≤
+                    (C.candidates.length - (st.store.get nid).tail.length) *
+                      W C.candidates.length (C.candidates.length - (st.store.get nid).tail.length - 1) :=
+                  Nat.le_mul_of_pos_left _ (by omega)
+                omega
             | false =>
               simp only [Bool.false_eq_true, if_false] at h
               have hexp_new : (st2.store.get st.store.size).expandable = true := by
@@ -738,21 +956,35 @@ theorem performDive_spec (hC : C.candidates.Nodup) : ∀ (fuel nid : Nat) (st : 
                 cases hx : (Store.get s1 st.store.size).expandable with
                 | true => rfl
                 | false => rw [hx] at this; cases this
-              have ihres :=
+              obtain ⟨ihres, ihfuel⟩ :=
                 ih st.store.size st2 res h (by rw [m1']; exact hidlt) (by rw [m1']; exact hok1) m2 hexp_new
+              have hlen2 : (st2.store.get st.store.size).tail.length = (st.store.get nid).tail.length + 1 := by
+                rw [m1', hget_new, f1]; rfl
+              refine ⟨?_, fun hr => by have := ihfuel hr; rw [hlen2] at this; omega⟩
               cases res with
               | fuel => trivial
               | err e => exact ihres
               | ok sd =>
               obtain ⟨ihbad, ihgood⟩ := ihres
               refine ⟨ihbad, fun hinf => ?_⟩
-              obtain ⟨next', _, _, d1, d2, d3, d4, d5, d6, d7, d8⟩ := ihgood hinf
+              obtain ⟨next', _, _, d1, d2, d3, d4, d5, d6, d7, d8, d9⟩ := ihgood hinf
               refine ⟨next, hnc, hnt, d1, d2, LB.le_trans m3 d3, fun π hsc => d4 π (hsc_all π hsc),
-                fun π hthru => d4 π (hsc_thru π hthru), by rw [m1'] at d6; omega, ?_, ?_⟩
+                fun π hthru => d4 π (hsc_thru π hthru), by rw [m1'] at d6; omega, ?_, ?_, ?_⟩
               · intro k hk hne
                 rw [d7 k (by rw [m1']; omega) (by omega), m1']
                 exact hget_old k hk hne
               · rw [d7 nid (by rw [m1']; omega) (by omega), m1', hget_nid, hnode']
+              · rw [hlen2] at d9
+                -- d9 : Phi sd ≤ Phi st2 + (N - (k+1)) * W (N - (k+1) - 1)
+                generalize hN : C.candidates.length = N at d9 hPhi2 hklt ⊢
+                generalize hk : (st.store.get nid).tail.length = k at d9 hPhi2 hklt ⊢
+                have hmono : W N (N - (k + 1) - 1) ≤ W N (N - k - 1) := W_mono N (by omega)
+                have h1 : (N - (k + 1)) * W N (N - (k + 1) - 1) ≤ (N - (k + 1)) * W N (N - k - 1) :=
+                  Nat.mul_le_mul_left _ hmono
+                have h2 : (N - k) * W N (N - k - 1) = (N - (k + 1)) * W N (N - k - 1) + W N (N - k - 1) := by
+                  have : N - k = (N - (k + 1)) + 1 := by omega
+                  rw [this, Nat.succ_mul]
+                omega
 
 /-! ### the expansion loop -/
 
@@ -766,7 +998,9 @@ theorem expandLoop_spec (hC : C.candidates.Nodup) (te : Nat) : ∀ (cs : List α
       (∀ π, SC st π → SC st' π) ∧
       (∀ c ∈ cs, c ∉ (st.store.get te).tail → c ∉ (st.store.get te).explored →
         ∀ π, (c :: (st.store.get te).tail) <:+ π → SC st' π) ∧
-      st.store.size ≤ st'.store.size ∧ (∀ k, k < st.store.size → st'.store.get k = st.store.get k)) := by
+      st.store.size ≤ st'.store.size ∧ (∀ k, k < st.store.size → st'.store.get k = st.store.get k) ∧
+      Phi C st' ≤ Phi C st + cs.length *
+        W C.candidates.length (C.candidates.length - (st.store.get te).tail.length - 1)) := by
   intro cs
   induction cs with
   | nil =>
@@ -774,7 +1008,7 @@ theorem expandLoop_spec (hC : C.candidates.Nodup) (te : Nat) : ∀ (cs : List α
     simp only [expandLoop, Prod.mk.injEq] at h
     obtain ⟨rfl, rfl⟩ := h
     exact ⟨fun h => (by cases h),
-      fun _ => ⟨hok, hF, LB.le_refl _, fun _ h => h, by simp, Nat.le_refl _, fun _ _ => rfl⟩⟩
+      fun _ => ⟨hok, hF, LB.le_refl _, fun _ h => h, by simp, Nat.le_refl _, fun _ _ => rfl, by simp⟩⟩
   | cons c cs ih =>
     intro st st' b h hte hok hF hcs hexp
     rw [expandLoop] at h
@@ -834,13 +1068,31 @@ theorem expandLoop_spec (hC : C.candidates.Nodup) (te : Nat) : ∀ (cs : List α
             exact ⟨fun _ => hbad rfl, fun h => (by cases h)⟩
           | false =>
             simp only [Bool.false_eq_true, if_false] at h
-            obtain ⟨m1, m2, m3, m4, m5, _⟩ := hm rfl
+            obtain ⟨m1, m2, m3, m4, m5, _, m7⟩ := hm rfl
             have m1' : st2.store = st.store.push newn := m1
             have hte2 : st2.store.get te = st.store.get te := by rw [m1']; exact hold te hte
             obtain ⟨ihbad, ihgood⟩ := ih st2 st' b h (by rw [m1', hsz]; omega)
               (by rw [m1']; exact hok1) m2 hcs' (by rw [hte2]; exact hexp)
             refine ⟨ihbad, fun hb => ?_⟩
-            obtain ⟨i1, i2, i3, i4, i5, i6, i7⟩ := ihgood hb
+            obtain ⟨i1, i2, i3, i4, i5, i6, i7, i8⟩ := ihgood hb
+            have hPhi1 : Phi C (St.mk (st.store.push newn) st.fr st.lb) ≤ Phi C st := by
+              refine Phi_le_of C (st := st) (st' := St.mk (st.store.push newn) st.fr st.lb) rfl ?_
+              intro k hk
+              show wt _ (Store.get (st.store.push newn) k) st.lb ≤ _
+              rw [hold k (hF.inRange k hk)]
+              exact Nat.le_refl _
+            have hPhi2 : Phi C st2 ≤ Phi C st +
+                W C.candidates.length (C.candidates.length - (st.store.get te).tail.length - 1) := by
+              have hl : (Store.get (st.store.push newn) st.store.size).tail.length =
+                  (st.store.get te).tail.length + 1 := by rw [hnew, f1]; rfl
+              have m7' : Phi C st2 ≤ Phi C (St.mk (st.store.push newn) st.fr st.lb) +
+                  W C.candidates.length
+                    (C.candidates.length - (Store.get (st.store.push newn) st.store.size).tail.length) := m7
+              rw [hl] at m7'
+              have e : C.candidates.length - ((st.store.get te).tail.length + 1) =
+                  C.candidates.length - (st.store.get te).tail.length - 1 := by omega
+              rw [e] at m7'
+              omega
             have hsc1 : ∀ π, SC st π → SC st2 π := by
               intro π hsc
               apply m4
@@ -848,7 +1100,11 @@ theorem expandLoop_spec (hC : C.candidates.Nodup) (te : Nat) : ∀ (cs : List α
                 show (Store.get (st.store.push newn) x).tail = _ ∧ (Store.get (st.store.push newn) x).estimate = _ ∧
                   (Store.get (st.store.push newn) x).explored = _
                 rw [hold x (hF.inRange x hx)]; exact ⟨rfl, rfl, rfl⟩⟩) (LB.le_refl _)
-            refine ⟨i1, i2, LB.le_trans m3 i3, fun π hsc => i4 π (hsc1 π hsc), ?_, by rw [m1', hsz] at i6; omega, ?_⟩
+            refine ⟨i1, i2, LB.le_trans m3 i3, fun π hsc => i4 π (hsc1 π hsc), ?_, by rw [m1', hsz] at i6; omega, ?_, ?_⟩
+            rotate_left 2
+            · rw [hte2] at i8
+              simp only [List.length_cons, Nat.succ_mul]
+              omega
             · intro c' hc' h1 h2 π hπ
               simp only [List.mem_cons] at hc'
               rcases hc' with rfl | hc'
@@ -864,8 +1120,11 @@ theorem expandLoop_spec (hC : C.candidates.Nodup) (te : Nat) : ∀ (cs : List α
     · rename_i hcond
       obtain ⟨ihbad, ihgood⟩ := ih st st' b h hte hok hF hcs' hexp
       refine ⟨ihbad, fun hb => ?_⟩
-      obtain ⟨i1, i2, i3, i4, i5, i6, i7⟩ := ihgood hb
-      refine ⟨i1, i2, i3, i4, ?_, i6, i7⟩
+      obtain ⟨i1, i2, i3, i4, i5, i6, i7, i8⟩ := ihgood hb
+      refine ⟨i1, i2, i3, i4, ?_, i6, i7, ?_⟩
+      rotate_left 1
+      · simp only [List.length_cons, Nat.succ_mul]
+        omega
       intro c' hc' h1 h2 π hπ
       simp only [List.mem_cons] at hc'
       rcases hc' with rfl | hc'
@@ -965,15 +1224,31 @@ theorem exists_alt (hC : C.candidates.Nodup) (hn : 2 ≤ C.candidates.length) :
   refine ⟨C.candidates.erase c ++ [c], ?_, C.candidates.erase c, c, rfl, hcw⟩
   exact List.perm_append_comm.trans (List.perm_cons_erase hc).symm
 
+theorem Phi_cons {st : St α D} {te : Nat} {rest : List Nat} (hfr : st.fr = te :: rest) :
+    Phi C st = wt C.candidates.length (st.store.get te) st.lb + Phi C ({ st with fr := rest } : St α D) := by
+  unfold Phi
+  rw [hfr]
+  simp only [List.map_cons, List.sum_cons]
+
 theorem mainLoop_spec (hC : C.candidates.Nodup) (hn : 2 ≤ C.candidates.length) :
     ∀ (fuel : Nat) (st : St α D) (r : Res (Option (St α D))),
     mainLoop asn C (cvrs.filterMap id) (nebTable asn C cvrs) fuel st = r →
-    Inv asn C cvrs winner st → LoopOut asn C cvrs winner r := by
+    Inv asn C cvrs winner st →
+    LoopOut asn C cvrs winner r ∧ (r = Res.fuel → fuel ≤ Phi C st) := by
   intro fuel
   induction fuel with
-  | zero => intro st r h _; simp only [mainLoop] at h; subst h; trivial
+  | zero =>
+    intro st r h _; simp only [mainLoop] at h; subst h
+    exact ⟨trivial, fun _ => Nat.zero_le _⟩
   | succ fuel ih =>
     intro st r h hI
+    -- a recursive call on a state of smaller measure
+    have recurse : ∀ st2 : St α D, Inv asn C cvrs winner st2 → Phi C st2 < Phi C st →
+        mainLoop asn C (cvrs.filterMap id) (nebTable asn C cvrs) fuel st2 = r →
+        LoopOut asn C cvrs winner r ∧ (r = Res.fuel → fuel + 1 ≤ Phi C st) := by
+      intro st2 hI2 hlt hrun
+      obtain ⟨o1, o2⟩ := ih st2 r hrun hI2
+      exact ⟨o1, fun hr => by have := o2 hr; omega⟩
     rw [mainLoop] at h
     split at h
     · rename_i hfr
@@ -987,13 +1262,31 @@ theorem mainLoop_spec (hC : C.candidates.Nodup) (hn : 2 ≤ C.candidates.length)
       · -- exit: the first frontier node is not expandable
         rename_i hne
         subst h
-        exact ⟨hI, te, rest, hfr, by simpa using hne⟩
+        exact ⟨⟨hI, te, rest, hfr, by simpa using hne⟩, fun h => nomatch h⟩
       · rename_i hne
         have hexp : (st.store.get te).expandable = true := by simpa using hne
         have hte : te < st.store.size := hI.fr.inRange te (by rw [hfr]; exact List.mem_cons_self)
         have hF0 : FInv asn C cvrs winner ({ st with fr := rest } : St α D) := hI.fr.tail hfr
         have hteOK := hI.ok te hte
         have hlen := hteOK.expLen hexp
+        have hlen2 := hteOK.len
+        have hPhi := Phi_cons C hfr
+        have hwt_ge := le_wt_of_exp C.candidates.length (st.store.get te) st.lb hexp (Nat.le_of_lt hlen)
+        -- arithmetic of the weights, with `X = W (N - k - 1)` and `Y = N * X`
+        have hWsucc : W C.candidates.length (C.candidates.length - (st.store.get te).tail.length) =
+            2 * (C.candidates.length *
+              W C.candidates.length (C.candidates.length - (st.store.get te).tail.length - 1)) +
+            W C.candidates.length (C.candidates.length - (st.store.get te).tail.length - 1) := by
+          have e : C.candidates.length - (st.store.get te).tail.length =
+              (C.candidates.length - (st.store.get te).tail.length - 1) + 1 := by omega
+          rw [e]
+          show (2 * C.candidates.length + 1) * W _ _ = _
+          rw [Nat.add_mul, Nat.one_mul, Nat.mul_assoc]
+          simp only [Nat.add_sub_cancel]
+        have hXpos := W_pos C.candidates.length (C.candidates.length - (st.store.get te).tail.length - 1)
+        have hYge : C.candidates.length ≤ C.candidates.length *
+            W C.candidates.length (C.candidates.length - (st.store.get te).tail.length - 1) :=
+          Nat.le_mul_of_pos_right _ (by omega)
         -- the expansion step, shared by the two places where it occurs
         have expandCase : ∀ (st1 : St α D), te < st1.store.size → StoreOK asn C cvrs winner st1.store →
             FInv asn C cvrs winner st1 → (st1.store.get te).tail = (st.store.get te).tail →
@@ -1003,13 +1296,15 @@ theorem mainLoop_spec (hC : C.candidates.Nodup) (hn : 2 ≤ C.candidates.length)
               (∀ c ∈ (st.store.get te).explored, ¬ (c :: (st.store.get te).tail) <:+ π) →
               ∀ c, (c :: (st.store.get te).tail) <:+ π → c ∈ (st1.store.get te).explored → SC st1 π) →
             leLB (st.store.get te).estimate st.lb = false →
+            Phi C st1 + C.candidates.length *
+              W C.candidates.length (C.candidates.length - (st.store.get te).tail.length - 1) < Phi C st →
             (if (expandLoop asn C (cvrs.filterMap id) (nebTable asn C cvrs) te C.candidates st1).1 = true
               then Res.ok none
               else mainLoop asn C (cvrs.filterMap id) (nebTable asn C cvrs) fuel
                 (expandLoop asn C (cvrs.filterMap id) (nebTable asn C cvrs) te C.candidates st1).2)
               = r →
-            LoopOut asn C cvrs winner r := by
-          intro st1 hte1 hok1 hF1 htail1 hexp1 hsc1 hexpl hnle hrun
+            LoopOut asn C cvrs winner r ∧ (r = Res.fuel → fuel + 1 ≤ Phi C st) := by
+          intro st1 hte1 hok1 hF1 htail1 hexp1 hsc1 hexpl hnle hPhi1 hrun
           cases hr : expandLoop asn C (cvrs.filterMap id) (nebTable asn C cvrs) te C.candidates st1 with
           | mk r1 st2 =>
             rw [hr] at hrun
@@ -1019,11 +1314,12 @@ theorem mainLoop_spec (hC : C.candidates.Nodup) (hn : 2 ≤ C.candidates.length)
             | true =>
               simp only [if_true] at hrun
               subst hrun
-              exact ebad rfl
+              exact ⟨ebad rfl, fun h => nomatch h⟩
             | false =>
               simp only [Bool.false_eq_true, if_false] at hrun
-              obtain ⟨e1, e2, e3, e4, e5, e6, e7⟩ := egood rfl
-              apply ih st2 r hrun
+              obtain ⟨e1, e2, e3, e4, e5, e6, e7, e8⟩ := egood rfl
+              rw [htail1] at e8
+              refine recurse st2 ?_ (by omega) hrun
               apply inv_of_step asn C cvrs winner hC hI hfr e1 e2 (fun π hsc => e4 π (hsc1 π hsc))
               intro π hπ hthru heff
               rcases heff with heff | heff
@@ -1037,20 +1333,32 @@ theorem mainLoop_spec (hC : C.candidates.Nodup) (hn : 2 ≤ C.candidates.length)
         | some stp =>
           rw [hp] at h
           simp only at h
-          obtain ⟨p1, p2, p3, p4, p5⟩ := pruneChecks_spec asn C cvrs winner ({ st with fr := rest } : St α D) stp te hte hI.ok hF0 hp
-          apply ih stp r h
-          exact inv_of_step asn C cvrs winner hC hI hfr p1 p2 p4 (fun π _ hthru _ => p5 π hthru)
+          obtain ⟨p1, p2, p3, p4, p5, p6⟩ := pruneChecks_spec asn C cvrs winner hC ({ st with fr := rest } : St α D) stp te hte hI.ok hF0 hp
+          refine recurse stp ?_ ?_ h
+          · exact inv_of_step asn C cvrs winner hC hI hfr p1 p2 p4 (fun π _ hthru _ => p5 π hthru)
+          · have p6' : Phi C stp ≤ Phi C ({ st with fr := rest } : St α D) +
+                ((st.store.get te).tail.length - 1) := p6
+            omega
         | none =>
           rw [hp] at h
           simp only at h
           have hnle := pruneChecks_none hp
+          have hnle' : leLB (st.store.get te).estimate st.lb = false := hnle
+          have hwt_te : wt C.candidates.length (st.store.get te) st.lb =
+              W C.candidates.length (C.candidates.length - (st.store.get te).tail.length) := by
+            unfold wt
+            rw [if_pos hexp, hnle']
+            rfl
           split at h
           · -- dive first
             rename_i hdn
-            have hdres := performDive_spec asn C cvrs winner hC (C.candidates.length + 1) te
+            obtain ⟨hdres, hdfuel⟩ := performDive_spec asn C cvrs winner hC (C.candidates.length + 1) te
               ({ st with fr := rest } : St α D) _ rfl hte hI.ok hF0 hexp
             split at h
-            · subst h; trivial
+            · rename_i hdive
+              exfalso
+              have := hdfuel hdive
+              omega
             · rename_i e hdive
               rw [hdive] at hdres; exact hdres.elim
             · rename_i sd hdive
@@ -1059,10 +1367,10 @@ theorem mainLoop_spec (hC : C.candidates.Nodup) (hn : 2 ≤ C.candidates.length)
               split at h
               · rename_i hinf
                 subst h
-                exact dbad hinf
+                exact ⟨dbad hinf, fun h => nomatch h⟩
               · rename_i hinf
                 have hinf' : LB.isInf sd.lb = false := by simpa using hinf
-                obtain ⟨next, hnc, hnt, d1, d2, d3, d4, d5, d6, d7, d8⟩ := dgood hinf'
+                obtain ⟨next, hnc, hnt, d1, d2, d3, d4, d5, d6, d7, d8, d9⟩ := dgood hinf'
                 have hsdte_tail : (sd.store.get te).tail = (st.store.get te).tail := by
                   have : sd.store.get te = _ := d8
                   rw [this]
@@ -1082,21 +1390,40 @@ theorem mainLoop_spec (hC : C.candidates.Nodup) (hn : 2 ≤ C.candidates.length)
                   intro π hsc
                   exact (d4 π hsc).mono (fun x hx => ⟨hx, rfl, rfl, rfl⟩) (le_maxLB2_right _ _)
                 have hte1 : te < sd.store.size := Nat.lt_of_lt_of_le hte d6
+                -- measure after the dive and the update of the lower bound
+                have hPhi_sd : Phi C sd ≤ Phi C ({ st with fr := rest } : St α D) +
+                    C.candidates.length *
+                      W C.candidates.length (C.candidates.length - (st.store.get te).tail.length - 1) := by
+                  have d9' : Phi C sd ≤ Phi C ({ st with fr := rest } : St α D) +
+                      (C.candidates.length - (st.store.get te).tail.length) *
+                        W C.candidates.length (C.candidates.length - (st.store.get te).tail.length - 1) := d9
+                  have : (C.candidates.length - (st.store.get te).tail.length) *
+                      W C.candidates.length (C.candidates.length - (st.store.get te).tail.length - 1) ≤
+                      C.candidates.length *
+                      W C.candidates.length (C.candidates.length - (st.store.get te).tail.length - 1) :=
+                    Nat.mul_le_mul_right _ (Nat.sub_le _ _)
+                  omega
+                have hPhi_st1 : Phi C ({ sd with lb := maxLB2 st.lb sd.lb } : St α D) ≤ Phi C sd :=
+                  Phi_setLb asn C cvrs winner hC sd _ (le_maxLB2_right _ _) d1 d2.inRange
                 cases hp2 : pruneChecks ({ sd with lb := maxLB2 st.lb sd.lb } : St α D) te with
                 | some stp =>
                   rw [hp2] at h
                   simp only at h
-                  obtain ⟨p1, p2, p3, p4, p5⟩ := pruneChecks_spec asn C cvrs winner ({ sd with lb := maxLB2 st.lb sd.lb } : St α D) stp te hte1 d1 hF1 hp2
-                  apply ih stp r h
-                  refine inv_of_step asn C cvrs winner hC hI hfr p1 p2 (fun π hsc => p4 π (hsc1 π hsc)) ?_
-                  intro π _ hthru _
-                  apply p5
-                  show (sd.store.get te).tail <:+ π
-                  rw [hsdte_tail]; exact hthru
+                  obtain ⟨p1, p2, p3, p4, p5, p6⟩ := pruneChecks_spec asn C cvrs winner hC ({ sd with lb := maxLB2 st.lb sd.lb } : St α D) stp te hte1 d1 hF1 hp2
+                  refine recurse stp ?_ ?_ h
+                  · refine inv_of_step asn C cvrs winner hC hI hfr p1 p2 (fun π hsc => p4 π (hsc1 π hsc)) ?_
+                    intro π _ hthru _
+                    apply p5
+                    show (sd.store.get te).tail <:+ π
+                    rw [hsdte_tail]; exact hthru
+                  · have p6' : Phi C stp ≤ Phi C ({ sd with lb := maxLB2 st.lb sd.lb } : St α D) +
+                        ((sd.store.get te).tail.length - 1) := p6
+                    rw [hsdte_tail] at p6'
+                    omega
                 | none =>
                   rw [hp2] at h
                   simp only at h
-                  refine expandCase ({ sd with lb := maxLB2 st.lb sd.lb } : St α D) hte1 d1 hF1 hsdte_tail hsdte_exp hsc1 ?_ hnle h
+                  refine expandCase ({ sd with lb := maxLB2 st.lb sd.lb } : St α D) hte1 d1 hF1 hsdte_tail hsdte_exp hsc1 ?_ hnle (by omega) h
                   intro π hπ hthru heff c hc1 hce
                   have hce' : c ∈ (st.store.get te).explored ++ [next] := by
                     rw [← hsdte_expl]; exact hce
@@ -1106,7 +1433,7 @@ theorem mainLoop_spec (hC : C.candidates.Nodup) (hn : 2 ≤ C.candidates.length)
                   · show SC ({ sd with lb := maxLB2 st.lb sd.lb } : St α D) π
                     exact (d5 π hc1).mono (fun x hx => ⟨hx, rfl, rfl, rfl⟩) (le_maxLB2_right _ _)
           · -- the node was created by a dive: expand directly
-            refine expandCase ({ st with fr := rest } : St α D) hte hI.ok hF0 rfl hexp (fun π hsc => hsc) ?_ hnle h
+            refine expandCase ({ st with fr := rest } : St α D) hte hI.ok hF0 rfl hexp (fun π hsc => hsc) ?_ hnle (by omega) h
             intro π hπ hthru heff c hc1 hce
             exact absurd hc1 (heff c hce)
 
